@@ -94,7 +94,8 @@ Inductive op :=
 | HRevoke (n : N) (pay_ok : bool)   (* RevokeCommitmentTx: revoke (n+1), reply needs a secret *)
 (* life cycle *)
 | Setup
-| Restart.
+| Restart
+| SetupRefused.                      (* a setup_channel / SetupChannel that the policy refuses, on whatever the slot is *)
 
 Section Step.
 Variable warn : tag -> bool.      (* PolicyFilter: does this tag only warn? *)
@@ -447,6 +448,7 @@ Definition step0 (s : slot) (o : op) : slot * outp :=
       | Stub => (Stub, ok0)
       | Ready ch => (Ready (mkC (disk ch) (disk ch)), ok0)
       end
+  | SetupRefused => (s, refused)
   end.
 
 (** a panic ends the signer process; the next request is served by a signer restarted from the
